@@ -16,6 +16,7 @@ CONSTANTS N,          \* number of types
           FnKinds,    \* impl-function mention kinds
           FnOwners,   \* indices of the types that may have an impl function
           TwoModules, \* split the types over two modules
+          Twins,      \* "none" | "same" | "other": a declared type named like A's generated vftable struct
           Ptrs
 
 Names == <<"A", "B", "C", "D", "E", "F">>
@@ -59,8 +60,16 @@ TypeOf(i, s) ==
                              \o (IF s.kind \in {"base", "base0"} THEN <<Leaf>> ELSE <<>>))
      EXCEPT !.vft = IF s.vft THEN VftBlock ELSE NoVft]
 
-MkInput(ptr, ss) ==
-  LET defs == [i \in 1..N |-> TypeOf(i, ss[i])]
+(* a declared `AVftable` next to A: "same" equals what pyxis generates for an empty vftable block (A then declares an *)
+(* empty block), "other" differs from it.  Either way two declarations produce one item: always an error.           *)
+TwinDefs(tw) ==
+  CASE tw = "same"  -> <<TypeDef(Names[1] \o "Vftable", "pub", <<>>)>>
+    [] tw = "other" -> <<TypeDef(Names[1] \o "Vftable", "pub", <<Leaf>>)>>
+    [] OTHER -> <<>>
+
+MkInput(ptr, ss, tw) ==
+  LET defs0 == [i \in 1..N |-> TypeOf(i, ss[i])]
+      defs == (IF tw = "same" /\ defs0[1].vft.has THEN <<[defs0[1] EXCEPT !.vft = Vft(None, <<>>)]>> \o Tail(defs0) ELSE defs0) \o TwinDefs(tw)
       impls == Flatten([i \in 1..N |-> IF ss[i].fk = "none" THEN <<>>
                                        ELSE <<Impl(Names[i], FnOf(ss[i].fk, ss[i].ft))>>])
       one == [Module(<<"m">>, <<>>, defs) EXCEPT !.impls = impls]
@@ -68,7 +77,7 @@ MkInput(ptr, ss) ==
       (* `b` imports the type a::A by name                                                *)
       ma == [Module(<<"a">>, <<<<"b">>>>, SubSeq(defs, 1, 1))
                EXCEPT !.impls = SelectSeq(impls, LAMBDA x : x.name = Names[1])]
-      mb == [Module(<<"b">>, <<<<"a", Names[1]>>>>, SubSeq(defs, 2, N))
+      mb == [Module(<<"b">>, <<<<"a", Names[1]>>>>, SubSeq(defs, 2, Len(defs)))
                EXCEPT !.impls = SelectSeq(impls, LAMBDA x : x.name # Names[1])]
   IN [ptr |-> ptr, mods |-> IF TwoModules THEN <<ma, mb>> ELSE <<one>>]
 
@@ -76,8 +85,9 @@ ShapesFor(i) == IF i > N THEN {CHOOSE s \in Shapes : TRUE} ELSE {s \in Shapes : 
 
 MCInit ==
   /\ \E ptr \in Ptrs, s1 \in ShapesFor(1), s2 \in ShapesFor(2), s3 \in ShapesFor(3),
-        s4 \in ShapesFor(4), s5 \in ShapesFor(5) :
-        input = MkInput(ptr, <<s1, s2, s3, s4, s5>>)
+        s4 \in ShapesFor(4), s5 \in ShapesFor(5), tw \in Twins :
+        /\ (tw # "none" => s1.vft)
+        /\ input = MkInput(ptr, <<s1, s2, s3, s4, s5>>, tw)
   /\ InitRest
 
 MCSpec == MCInit /\ [][Next]_vars /\ WF_vars(Next)
@@ -106,7 +116,7 @@ Inv_C10 ==
     /\ (Rejected /\ err = "nonterm") => Unresolved(reg) = UnresolvablePaths
 
 (* passes are bounded by the number of definitions (termination, C12)      *)
-Inv_Passes == Len(hist) <= N + 2 + aux.extra /\ aux.extra <= 2
+Inv_Passes == Len(hist) <= N + 3 + aux.extra /\ aux.extra <= 2
 
 PViol ==
   (IF Inv_C09 THEN {} ELSE {"C09"}) \cup (IF Inv_C10 THEN {} ELSE {"C10"})
